@@ -51,15 +51,15 @@ for p in props:
             "level_claimed": {"category": "proof", "text": text, "design_ref": "section " + ref},
             "level_note": NOTE,
             "technique": ("Lean 4 theorems about a hand-written executable model + differential correspondence check against /repo"
-                          + ("; schema.sql translated to Lean on every run and re-checked against the declarations the proofs assume"
-                             if pid in ("C01", "C03", "C04", "C09", "C10", "C11", "C13", "C19") else "")),
+                          + ("; schema.sql and/or the embedded SQL statements translated to Lean on every run and re-checked against what the model was derived from"
+                             if pid in ("C01", "C03", "C04", "C06", "C07", "C09", "C10", "C11", "C13", "C17", "C18", "C19", "C20") else "")),
         })
     else:
         na.append({"property_id": pid, "reason": "check not built yet in this round (build in progress; see DESIGN.md section 12)"})
 
 m = {
  "version": 1,
- "setup_cmd": "python3 tools/gen_schema.py && cd lean && lake build SpowtdModel driver SchemaTie && cd .. && /venv/bin/python -c \"from harness import common; import sys; r = common.audit([]); print(r['problems']); sys.exit(0 if r['ok'] else 1)\"",
+ "setup_cmd": "python3 tools/gen_schema.py && python3 tools/gen_sql.py && cd lean && lake build SpowtdModel driver SchemaTie SqlTie && cd .. && /venv/bin/python -c \"from harness import common; import sys; r = common.audit([]); print(r['problems']); sys.exit(0 if r['ok'] else 1)\"",
  "hooks": {"guard": "SPOWTD_VERIF", "enable": "no source hooks: the harness instruments sqlite3/scipy inside its own process (SPOWTD_VERIF=1 is set but read by nothing in /repo)",
            "baseline_off_cmd": "cd /repo && /venv/bin/python -m pytest -ra -q -p no:cacheprovider --timeout=900 --continue-on-collection-errors",
            "source_commits": [], "add_only": True},
